@@ -357,9 +357,69 @@ def pow2_family(rep):
     return len(cases)
 
 
+# ------------------------------------------------------------------ matrix conversion = elementwise scalar conversion (Trace_C12)
+CVALS = {"u8": [3, 127, 200, 255], "u16": [3, 200, 300, 65535], "u32": [3, 300, 70000, 4294967295], "u64": [3, 300, 70000, 1099511627776],
+         "u128": [3, 300, 70000, 1099511627776], "i8": [-128, -3, 3, 127], "i16": [-300, -3, 200, 32767], "i32": [-70000, -3, 300, 70000],
+         "i64": [-70000, -3, 300, 1099511627776], "i128": [-70000, -3, 300, 1099511627776], "f32": [-3.75, 3.75, 300.5, 70000.25], "f64": [-3.75, 3.75, 300.5, 70000.25]}
+
+def consistency_family(rep, tier):
+    import json, os
+    kinds = list(CVALS)
+    reqs = []; meta = []
+    for sk in kinds:
+        for dk in kinds:
+            for form, (r, c) in (("row", (1, 4)), ("col", (4, 1)), ("mat", (2, 2))):
+                vals = CVALS[sk]
+                lit = (lambda v: repr(v)) if sk in ("f32", "f64") else (lambda v: str(v))
+                st = [f"t{i}<{sk}> := {lit(v)}" for i, v in enumerate(vals)]
+                mtx = {"row": "[t0 t1 t2 t3]", "col": "[[t0 t1 t2 t3]']" if False else "[t0 t1 t2 t3]'", "mat": "[[t0 t2]' [t1 t3]']'"}[form]
+                st.append(f"m := {mtx}")
+                st.append(f"y<[{dk}]> := m")
+                st += [f"u{i}<{dk}> := t{i}" for i in range(4)]
+                reqs.append({"id": len(reqs), "mode": "session", "stmts": st, "opts": {"shape": False}})
+                meta.append((sk, dk, form, r, c))
+    outs = execpool.run_requests(reqs, nworkers=16, timeout=120)
+    os.makedirs(os.path.join(tlc.OUT, "traces"), exist_ok=True)
+    path = os.path.join(tlc.OUT, "traces", f"c12_{tier}.ndjson")
+    tokv = lambda v: json.dumps(v, sort_keys=True).replace('"', "'")
+    index = []; unb = 0
+    with open(path, "w") as fh:
+        for req, (resp, oc), (sk, dk, form, r, c) in zip(reqs, outs, meta):
+            if oc != "ok" or "steps" not in (resp or {}):
+                rep.fail(f"C12/consistency/{sk}>{dk}/host-{oc}", f"{req['stmts']} -> interpreter process {oc}", {"stmts": req["stmts"]}); continue
+            st = resp["steps"]
+            if any(x.get("r") != "ok" for x in st[:5]): unb += 1; continue
+            mv = absval.absval(st[4]["v"])
+            if mv[0] != 'mat' or (mv[2], mv[3]) != (r, c): unb += 1; continue      # the source matrix did not get the intended shape
+            y = st[5]; ok = y.get("r") == "ok"
+            res = []; rr = rc = 0
+            if ok and isinstance(y["v"], dict) and y["v"].get("t") == "mat":
+                rr, rc = y["v"]["r"], y["v"]["c"]; res = [tokv(x) for x in y["v"]["d"]]
+            elif ok: rr = rc = 1; res = [tokv(y["v"])]
+            # scalar conversions in the column-major order of the source matrix
+            order = {"row": [0, 1, 2, 3], "col": [0, 1, 2, 3], "mat": [0, 1, 2, 3]}[form]
+            scal = [tokv(st[6 + i]["v"]) if st[6 + i].get("r") == "ok" else "err" for i in order]
+            fh.write(json.dumps({"src": sk, "dst": dk, "r": r, "c": c, "ok": ok, "resr": rr, "resc": rc, "res": res, "scal": scal}) + "\n")
+            index.append((req, sk, dk, form))
+    tt = tlc.run("Trace_C12", "Trace_C12.cfg", workers=1, env={"TRACE": path}, deque=True, xss="1g", xmx="2g", timeout=1200, tag=f"Trace_C12_{tier}")
+    if any("unconsumed" in m for m in tt.msgs) or (tt.rc != 0 and not tt.ok):
+        raise tlc.TlcError(f"Trace_C12 did not consume the trace: {tt.msgs[:2]} {tt.errors[:2]}")
+    nrej = 0
+    for m in tt.msgs:
+        if "l" not in m: continue
+        nrej += 1
+        req, sk, dk, form = index[m["l"] - 1]
+        for rule in m["rules"]:
+            sig = f"C12/matrix-closure/{sk}>{dk}" if rule == "rejected-although-every-element-converts" else f"C12/consistency/{sk}>{dk}/{form}/{rule}"
+            rep.fail(sig, f"{req['stmts']}: {rule}", {"stmts": req["stmts"]})
+    log(f"[C12] matrix conversion = elementwise scalar conversion: {len(index)} conversions validated by TLC, {nrej} rejected, {unb} not buildable")
+    rep.cov.update({"consistency_conversions": len(index), "consistency_rejected": nrej, "consistency_unbuildable": unb})
+    return len(index)
+
+
 # ------------------------------------------------------------------ main
 def run(rep, tier, seed):
-    npow2 = pow2_family(rep)
+    npow2 = pow2_family(rep) + consistency_family(rep, tier)
     quick = tier == "quick"
     cfg = "MC_C12_quick.cfg" if quick else "MC_C12_thorough.cfg"
     t = tlc.run("MC_C12", cfg, workers=16, timeout=3000)
